@@ -534,7 +534,7 @@ pub(crate) fn run_check(check: Arc<dyn Check>, tier: Tier, seed: u64, jobs: usiz
         let again = check.exec(trace);
         match again.violation {
             Some(ref v2) if same_violation(v, v2) && v2.step == v.step => {
-                let (min, used) = shrink(check.as_ref(), trace, v, 400);
+                let (min, used) = shrink(check.as_ref(), trace, v, 2500);
                 let fin = check.exec(&min);
                 let (min, vfin, tails) = match fin.violation {
                     Some(vf) if same_violation(v, &vf) => (min, vf, fin.tails),
